@@ -29,6 +29,7 @@ EXPLANATION = (
     "position i becomes letter k on qubit i, and bin2dec/dec2bin are both most-significant-first. "
     "(D4t) the density-matrix expectation is the trace of the matrix product (an element-wise product is tr(rho O^T)); (D6) the conversions keep no state: no cache on the operand object, no module-level cache."
     ' Round 4: no matrix is widened by an identity factor on the left in the expectation path.'
+    ' Round 5: every exit of get_expectation_value is the quadratic form with the sparse matrix; term hashes are not finer than term equality (C03-D6); no unsound functools cache.'
 )
 RULE_TEXT = "instances = branches of the five anchored functions, table entries of the phase/flip/letter tables, padding linear forms, guard dominance sites; distinct by (rule, construct)"
 ASSUMPTIONS = [
